@@ -54,6 +54,21 @@ def _is_prefixed(fn: ast.AST, e: ast.AST, depth: int = 0) -> bool:
     return False
 
 
+
+
+def _name_given(v: ast.AST) -> bool:
+    """`<local> is not None` or a bare `<local>` (truthiness of the chosen name)."""
+    if isinstance(v, ast.Name):
+        return True
+    return isinstance(v, ast.Compare) and isinstance(v.left, ast.Name) and len(v.ops) == 1 and isinstance(v.ops[0], ast.IsNot) and isinstance(v.comparators[0], ast.Constant) and v.comparators[0].value is None
+
+def _decision_asked(t: ast.AST) -> bool:
+    """Guard under which get_subcommands must come to a decision: `fail_no_subcommand`, possibly widened by
+    `subcommand is not None` (a name that was given is always checked)."""
+    if isinstance(t, ast.BoolOp) and isinstance(t.op, ast.Or):
+        return all(ast.unparse(v) == "fail_no_subcommand" or _name_given(v) for v in t.values) and any(ast.unparse(v) == "fail_no_subcommand" for v in t.values)
+    return ast.unparse(t) == "fail_no_subcommand"
+
 def run(ctx: Ctx) -> int:
     gs = ctx.func(GS)
     hs = ctx.func(HS)
@@ -324,8 +339,8 @@ def run(ctx: Ctx) -> int:
         for t, pol in guard_chain(rz[0], stop=gs):
             if pol:
                 pos += t.values if isinstance(t, ast.BoolOp) and isinstance(t.op, ast.And) else [t]
-        extra = [ast.unparse(t) for t in pos if not ("_name_parser_map" in ast.unparse(t) or ast.unparse(t) == "fail_no_subcommand")]
-        early = [r for r in walk_local(gs) if isinstance(r, ast.Return) and r.lineno < rz[0].lineno and any(ast.unparse(t) == "fail_no_subcommand" and pol for t, pol in guard_chain(r, stop=gs))]
+        extra = [ast.unparse(t) for t in pos if not ("_name_parser_map" in ast.unparse(t) or _decision_asked(t))]
+        early = [r for r in walk_local(gs) if isinstance(r, ast.Return) and r.lineno < rz[0].lineno and any(_decision_asked(t) and pol for t, pol in guard_chain(r, stop=gs))]
         ok = not extra and any("_name_parser_map" in ast.unparse(t) for t in pos) and all(any("is None" in ast.unparse(t) and "_required" in ast.unparse(t) and pol for t, pol in guard_chain(r, stop=gs)) for r in early)
     ctx.oblige("C17.f", ok, rz[0] if rz else gs, "when a decision is asked for, a missing required subcommand or a name outside the choices raises; only 'nothing given, nothing required' returns without a subcommand" if ok else "a required subcommand that cannot be determined (or an unknown name) is no longer an error on every path", fn=gs, construct="required / unknown raises")
 
